@@ -141,6 +141,18 @@ def run(prog, rep, tier):
             emp = [l for g, l in a.raw_conds if g[0] == "call" and g[1].endswith("::is_empty") and "families" in expr_vars(g)]
             if emp and emp[0] == {"true"} and any(c.endswith("RestartingDeferral::remove_peer") for c in a.calls):
                 covered |= set(a.cond(r"state") or ())
+    # the same thing said once, before the match: `PeerEstablished(addr, [])` is rewritten to `PeerWithdrawn(addr)` and the
+    # PeerWithdrawn arms do the removal
+    rewritten = False
+    for bi_, si_, s_ in fv.aggregates(re.compile(r"rustybgpd::gr::RestartingInput$"), "PeerWithdrawn"):
+        gs_ = flat_guards(fv, bi_, branches(fv))
+        if any(g[0] == "call" and g[1].endswith("::is_empty") and l == {"true"} for g, l, h in gs_) and \
+                any(g[0] == "discr" and l == {"PeerEstablished"} for g, l, h in gs_):
+            rewritten = True
+    if rewritten:
+        for a in arms:
+            if a.cond(r"input") == frozenset({"PeerWithdrawn"}) and any(c.endswith("RestartingDeferral::remove_peer") for c in a.calls):
+                covered |= set(a.cond(r"state") or ())
     for st_ in sorted(DEFERRING):
         if st_ in covered:
             r1.ok("%s + PeerEstablished(no GR families): peer removed from pending" % st_)
